@@ -652,6 +652,9 @@ func (f *Composite) unpackSubfieldsByTag(data []byte) (int, string, error) {
 				if err != nil {
 					return 0, "", err
 				}
+				if fieldLength < 0 || fieldLength > len(data)-offset-read {
+					return 0, tag, fmt.Errorf("failed to skip unknown subfield %v: length %d exceeds the remaining data", tag, fieldLength)
+				}
 				offset += fieldLength + read
 				continue
 			}
